@@ -223,180 +223,6 @@ theorem set_findIdx (h : StrictWeak lt) (k v : Int) (l : List (Int × Int)) (p :
         simp [this]
       | false => simp
 
-/-! ### flat_map -/
-
-structure MRep (lt : Int → Int → Bool) (m : FMap) (f : Int → Option (Int × Int)) : Prop where
-  /-- invariant: no two stored keys are the same key -/
-  uniq : Distinct lt (keysOf m.st)
-  /-- abstraction: `f k` is the stored entry with the same key as `k` -/
-  val : ∀ k, f k = entry lt k m.st
-
-/-- the entry `(k, v)` for every key that is the same key as `k` -/
-def updE (lt : Int → Int → Bool) (f : Int → Option (Int × Int)) (k v : Int) : Int → Option (Int × Int) :=
-  fun j => if same lt j k then some (k, v) else f j
-
-/-- std::map: how an operation changes the map -/
-def mapSpecNext (lt : Int → Int → Bool) (f : Int → Option (Int × Int)) : MOp → (Int → Option (Int × Int))
-  | .index k => if (f k).isSome then f else updE lt f k 0          -- `m[k]` default-inserts T()
-  | .assign k v =>                                                  -- `m[k] = v` overwrites the mapped value
-    match f k with
-    | some p => fun j => if same lt j k then some (p.1, v) else f j
-    | none => updE lt f k v
-  | .insert k v => if (f k).isSome then f else updE lt f k v        -- insert does not overwrite
-  | .emplace k v => if (f k).isSome then f else updE lt f k v
-  | .clear => fun _ => none
-  | .init l => fun k => entry lt k l                                -- the first entry of a key wins
-  | .find _ | .count _ | .at _ | .size => f
-
-/-- std::map: what an operation answers in the state `f` -/
-def mapRetOk (lt : Int → Int → Bool) (f : Int → Option (Int × Int)) : MOp → MRet → Prop
-  | .index k, r => r = .val (((f k).map (·.2)).getD 0)
-  | .assign _ _, r => r = .unit
-  | .insert k v, r => r = (match f k with | some p => .kv p.1 p.2 | none => .kv k v)  -- `*it`: the old or new entry
-  | .emplace k v, r => r = .flag (f k).isNone (((f k).map (·.2)).getD v)
-  | .find k, r => r = .opt ((f k).map (·.2))
-  | .count k, r => r = .nat (if (f k).isSome then 1 else 0)
-  | .at k, r => r = (match f k with | some p => .val p.2 | none => .throw)
-  | .size, r => ∃ keys : List Int, Distinct lt keys ∧ (∀ k, (f k).isSome ↔ ∃ j ∈ keys, same lt j k = true) ∧
-      r = .nat keys.length                                          -- number of distinct keys
-  | .clear, r => r = .unit
-  | .init _, r => r = .unit
-
-theorem MRep.empty : MRep lt ⟨[]⟩ (fun _ => none) := ⟨by simp [Distinct, keysOf], by simp [lookupBy]⟩
-
-/-- vector::insert of an absent key at any position of the storage (push_back = at the end) -/
-theorem MRep.insertAt (h : StrictWeak lt) {m : FMap} {f : Int → Option (Int × Int)} (hm : MRep lt m f) {k : Int}
-    (v : Int) (i : Nat) (hk : f k = none) : MRep lt ⟨listInsert m.st i (k, v)⟩ (updE lt f k v) := by
-  have hk' : entry lt k m.st = none := by rw [← hm.val]; exact hk
-  refine ⟨?_, ?_⟩
-  · simp only [keysOf_listInsert]
-    refine distinct_listInsert i hm.uniq ?_
-    intro a ha
-    obtain ⟨p, hp, rfl⟩ := List.mem_map.mp ha
-    exact (lookupBy_none_iff (·.1) k m.st).mp hk' p hp
-  · intro j
-    simp only [updE, hm.val]
-    exact (lookupBy_listInsert h (·.1) m.st i (k, v) j hk').symm
-
-theorem listInsert_length {α : Type} (l : List α) (x : α) : listInsert l l.length x = l ++ [x] := by
-  simp [listInsert]
-
-theorem MRep.append (h : StrictWeak lt) {m : FMap} {f : Int → Option (Int × Int)} (hm : MRep lt m f) {k : Int}
-    (v : Int) (hk : f k = none) : MRep lt ⟨m.st ++ [(k, v)]⟩ (updE lt f k v) := by
-  have := hm.insertAt h v m.st.length hk
-  rwa [listInsert_length] at this
-
-theorem MRep.ext {m : FMap} {f g : Int → Option (Int × Int)} (h : MRep lt m f) (e : f = g) : MRep lt m g := e ▸ h
-
-/-- the initializer-list constructor (after the fix): entries are appended unless their key is present -/
-theorem ofList_rep (h : StrictWeak lt) (l : List (Int × Int)) {m : FMap} {f : Int → Option (Int × Int)} (hm : MRep lt m f) :
-    MRep lt (FMap.ofList lt l m) (fun k => (f k).or (entry lt k l)) := by
-  induction l generalizing m f with
-  | nil => exact hm.ext (by funext k; simp [lookupBy])
-  | cons p r ih =>
-    obtain ⟨k, v⟩ := p
-    simp only [FMap.ofList, find_eq, ← hm.val, Option.isSome_map]
-    cases hf : f k with
-    | some w =>
-      simp only [Option.isSome_some, if_true]
-      refine (ih hm).ext ?_
-      funext j
-      simp only [lookupBy, List.find?_cons]
-      cases hj : same lt k j with
-      | false => rfl
-      | true =>
-        have : f j = f k := by rw [hm.val, hm.val]; exact lookupBy_congr h (·.1) (by rw [same_comm]; exact hj) m.st
-        simp [this, hf]
-    | none =>
-      simp only [Option.isSome_none, Bool.false_eq_true, if_false]
-      refine (ih (hm.append h v hf)).ext ?_
-      funext j
-      simp only [lookupBy, List.find?_cons, updE]
-      cases hj : same lt k j with
-      | false =>
-        have : same lt j k = false := by rw [same_comm]; exact hj
-        simp [this]
-      | true =>
-        have hj' : same lt j k = true := by rw [same_comm]; exact hj
-        have : f j = f k := by rw [hm.val, hm.val]; exact lookupBy_congr h (·.1) hj' m.st
-        simp [hj', this, hf]
-
-/-- ONE OPERATION of flat_map against std::map with the same comparator -/
-theorem mapStep_refines (h : StrictWeak lt) {m : FMap} {f : Int → Option (Int × Int)} (hm : MRep lt m f) (op : MOp) :
-    mapRetOk lt f op (m.step lt op).2 ∧ MRep lt (m.step lt op).1 (mapSpecNext lt f op) := by
-  cases op with
-  | index k =>
-    simp only [FMap.step, FMap.index, find_eq, ← hm.val, mapRetOk, mapSpecNext]
-    cases hf : f k with
-    | some w => simp; exact hm
-    | none => simp; exact hm.append h 0 hf
-  | assign k v =>
-    simp only [FMap.step, FMap.assign, mapRetOk, mapSpecNext, true_and]
-    have e := getElem?_findIdx (lt := lt) k m.st
-    rw [← hm.val] at e
-    cases hf : f k with
-    | some p =>
-      rw [hf] at e
-      simp only [e]
-      obtain ⟨a, b⟩ := set_findIdx h k v m.st p e
-      exact ⟨by rw [a]; exact hm.uniq, fun j => by rw [b j, ← hm.val]⟩
-    | none =>
-      rw [hf] at e
-      simp only [e]
-      exact hm.append h v hf
-  | insert k v =>
-    simp only [FMap.step, FMap.insert, findEntry_eq, ← hm.val, mapRetOk, mapSpecNext]
-    cases hf : f k with
-    | some w => simp; exact hm
-    | none => simp; exact hm.insertAt h v _ hf
-  | emplace k v =>
-    simp only [FMap.step, FMap.emplace, find_eq, ← hm.val, mapRetOk, mapSpecNext]
-    cases hf : f k with
-    | some w => simp; exact hm
-    | none => simp; exact hm.append h v hf
-  | find k => simp only [FMap.step, find_eq, ← hm.val, mapRetOk, mapSpecNext, true_and]; exact hm
-  | count k =>
-    simp only [FMap.step, FMap.count, mapRetOk, mapSpecNext]
-    refine ⟨?_, hm⟩
-    rw [count_eq h k m.st hm.uniq, hm.val]
-  | «at» k =>
-    simp only [FMap.step, FMap.atKey, find_eq, ← hm.val, mapRetOk, mapSpecNext]
-    refine ⟨?_, hm⟩
-    cases f k <;> rfl
-  | size =>
-    simp only [FMap.step, FMap.size, mapRetOk, mapSpecNext]
-    refine ⟨⟨keysOf m.st, hm.uniq, ?_, by simp [keysOf]⟩, hm⟩
-    intro k
-    rw [hm.val, lookupBy_isSome_iff]
-    constructor
-    · rintro ⟨p, hp, e⟩; exact ⟨p.1, List.mem_map.mpr ⟨p, hp, rfl⟩, e⟩
-    · rintro ⟨j, hj, e⟩
-      obtain ⟨p, hp, rfl⟩ := List.mem_map.mp hj
-      exact ⟨p, hp, e⟩
-  | clear => simp only [FMap.step, mapRetOk, mapSpecNext, true_and]; exact MRep.empty
-  | init l =>
-    simp only [FMap.step, mapRetOk, mapSpecNext, true_and]
-    exact (ofList_rep h l MRep.empty).ext (by funext k; simp)
-
-/-- a history of std::map answers: `rets` are what std::map answers to `ops` from the state `f` -/
-def MapHist (lt : Int → Int → Bool) : (Int → Option (Int × Int)) → List MOp → List MRet → Prop
-  | _, [], [] => True
-  | f, op :: ops, r :: rs => mapRetOk lt f op r ∧ MapHist lt (mapSpecNext lt f op) ops rs
-  | _, _, _ => False
-
-def mapSpecRun (lt : Int → Int → Bool) : (Int → Option (Int × Int)) → List MOp → (Int → Option (Int × Int))
-  | f, [] => f
-  | f, op :: ops => mapSpecRun lt (mapSpecNext lt f op) ops
-
-theorem mapRun_refines (h : StrictWeak lt) {m : FMap} {f : Int → Option (Int × Int)} (hm : MRep lt m f) (ops : List MOp) :
-    MapHist lt f ops (m.run lt ops).2 ∧ MRep lt (m.run lt ops).1 (mapSpecRun lt f ops) := by
-  induction ops generalizing m f with
-  | nil => exact ⟨trivial, hm⟩
-  | cons op ops ih =>
-    obtain ⟨a, b⟩ := mapStep_refines h hm op
-    obtain ⟨c, d⟩ := ih b
-    exact ⟨⟨a, c⟩, d⟩
-
 /-! ### insertion at the bound keeps a strictly increasing storage strictly increasing -/
 
 def Sorted (lt : Int → Int → Bool) (l : List Int) : Prop := l.Pairwise (fun a b => lt a b = true)
@@ -466,6 +292,208 @@ theorem sorted_insert_lb (h : StrictWeak lt) (k : Int) (xs : List Int) (hs : Sor
       rintro a (rfl | ha)
       · exact hky
       · exact h.trans _ _ _ hky (hs.1 a ha)
+
+/-! ### flat_map -/
+
+structure MRep (lt : Int → Int → Bool) (m : FMap) (f : Int → Option (Int × Int)) : Prop where
+  /-- invariant: the storage is strictly increasing by key under the comparator (hence no two stored keys are
+      the same key, and iteration visits the entries in std::map's order) -/
+  sorted : Sorted lt (keysOf m.st)
+  /-- abstraction: `f k` is the stored entry with the same key as `k` -/
+  val : ∀ k, f k = entry lt k m.st
+
+/-- no two stored keys are the same key -/
+theorem MRep.uniq (h : StrictWeak lt) {m : FMap} {f : Int → Option (Int × Int)} (hm : MRep lt m f) :
+    Distinct lt (keysOf m.st) := hm.sorted.distinct h
+
+/-- the entry `(k, v)` for every key that is the same key as `k` -/
+def updE (lt : Int → Int → Bool) (f : Int → Option (Int × Int)) (k v : Int) : Int → Option (Int × Int) :=
+  fun j => if same lt j k then some (k, v) else f j
+
+/-- std::map: how an operation changes the map -/
+def mapSpecNext (lt : Int → Int → Bool) (f : Int → Option (Int × Int)) : MOp → (Int → Option (Int × Int))
+  | .index k => if (f k).isSome then f else updE lt f k 0          -- `m[k]` default-inserts T()
+  | .assign k v =>                                                  -- `m[k] = v` overwrites the mapped value
+    match f k with
+    | some p => fun j => if same lt j k then some (p.1, v) else f j
+    | none => updE lt f k v
+  | .insert k v => if (f k).isSome then f else updE lt f k v        -- insert does not overwrite
+  | .emplace k v => if (f k).isSome then f else updE lt f k v
+  | .clear => fun _ => none
+  | .init l => fun k => entry lt k l                                -- the first entry of a key wins
+  | .find _ | .count _ | .at _ | .size | .iter | .cindex _ => f
+
+/-- std::map: what an operation answers in the state `f` -/
+def mapRetOk (lt : Int → Int → Bool) (f : Int → Option (Int × Int)) : MOp → MRet → Prop
+  | .index k, r => r = .val (((f k).map (·.2)).getD 0)
+  | .assign _ _, r => r = .unit
+  | .insert k v, r => r = (match f k with | some p => .kv p.1 p.2 | none => .kv k v)  -- `*it`: the old or new entry
+  | .emplace k v, r => r = .flag (f k).isNone (((f k).map (·.2)).getD v)
+  | .find k, r => r = .opt ((f k).map (·.2))
+  | .count k, r => r = .nat (if (f k).isSome then 1 else 0)
+  | .at k, r => r = (match f k with | some p => .val p.2 | none => .throw)
+  | .size, r => ∃ keys : List Int, Distinct lt keys ∧ (∀ k, (f k).isSome ↔ ∃ j ∈ keys, same lt j k = true) ∧
+      r = .nat keys.length                                          -- number of distinct keys
+  | .clear, r => r = .unit
+  | .init _, r => r = .unit
+  -- iteration visits exactly the entries of the map, in increasing key order
+  | .iter, r => ∃ l : List (Int × Int), Sorted lt (keysOf l) ∧ (∀ p, p ∈ l ↔ f p.1 = some p) ∧ r = .entries l
+  -- const operator[] (igris only): the mapped value or T(); the map is not changed
+  | .cindex k, r => r = .val (((f k).map (·.2)).getD 0)
+
+theorem MRep.empty : MRep lt ⟨[]⟩ (fun _ => none) := ⟨by simp [Sorted, keysOf], by simp [lookupBy]⟩
+
+/-- vector::insert of an absent key at `ordered_pos(key)` (the `std::upper_bound` position) -/
+theorem MRep.insertUb (h : StrictWeak lt) {m : FMap} {f : Int → Option (Int × Int)} (hm : MRep lt m f) {k : Int}
+    (v : Int) (hk : f k = none) : MRep lt ⟨listInsert m.st (m.upos lt k) (k, v)⟩ (updE lt f k v) := by
+  have hk' : entry lt k m.st = none := by rw [← hm.val]; exact hk
+  have hfar : ∀ a ∈ keysOf m.st, same lt a k = false := by
+    intro a ha
+    obtain ⟨p, hp, rfl⟩ := List.mem_map.mp ha
+    exact (lookupBy_none_iff (·.1) k m.st).mp hk' p hp
+  refine ⟨?_, ?_⟩
+  · simp only [keysOf_listInsert, FMap.upos]
+    have e := mapUpper_sorted lt h.ltTrans m.st k hm.sorted
+    simp only [keysOf] at e ⊢
+    rw [e]
+    exact sorted_insert_ub h k _ hm.sorted hfar
+  · intro j
+    simp only [updE, hm.val]
+    exact (lookupBy_listInsert h (·.1) m.st _ (k, v) j hk').symm
+
+theorem MRep.ext {m : FMap} {f g : Int → Option (Int × Int)} (h : MRep lt m f) (e : f = g) : MRep lt m g := e ▸ h
+
+/-- the initializer-list constructor (after the fix): entries are appended unless their key is present -/
+theorem ofList_rep (h : StrictWeak lt) (l : List (Int × Int)) {m : FMap} {f : Int → Option (Int × Int)} (hm : MRep lt m f) :
+    MRep lt (FMap.ofList lt l m) (fun k => (f k).or (entry lt k l)) := by
+  induction l generalizing m f with
+  | nil => exact hm.ext (by funext k; simp [lookupBy])
+  | cons p r ih =>
+    obtain ⟨k, v⟩ := p
+    simp only [FMap.ofList, find_eq, ← hm.val, Option.isSome_map]
+    cases hf : f k with
+    | some w =>
+      simp only [Option.isSome_some, if_true]
+      refine (ih hm).ext ?_
+      funext j
+      simp only [lookupBy, List.find?_cons]
+      cases hj : same lt k j with
+      | false => rfl
+      | true =>
+        have : f j = f k := by rw [hm.val, hm.val]; exact lookupBy_congr h (·.1) (by rw [same_comm]; exact hj) m.st
+        simp [this, hf]
+    | none =>
+      simp only [Option.isSome_none, Bool.false_eq_true, if_false]
+      refine (ih (hm.insertUb h v hf)).ext ?_
+      funext j
+      simp only [lookupBy, List.find?_cons, updE]
+      cases hj : same lt k j with
+      | false =>
+        have : same lt j k = false := by rw [same_comm]; exact hj
+        simp [this]
+      | true =>
+        have hj' : same lt j k = true := by rw [same_comm]; exact hj
+        have : f j = f k := by rw [hm.val, hm.val]; exact lookupBy_congr h (·.1) hj' m.st
+        simp [hj', this, hf]
+
+/-- in a storage strictly increasing by key the entry found for the key of a stored entry is that entry -/
+theorem entry_self (h : StrictWeak lt) {l : List (Int × Int)} (hs : Sorted lt (keysOf l)) {p : Int × Int} :
+    p ∈ l ↔ entry lt p.1 l = some p := by
+  constructor
+  · intro hp
+    induction l with
+    | nil => simp at hp
+    | cons y ys ih =>
+      simp only [Sorted, keysOf, List.map_cons, List.pairwise_cons] at hs
+      simp only [lookupBy, List.find?_cons]
+      rcases List.mem_cons.mp hp with rfl | hp
+      · simp [h.refl]
+      · have : same lt y.1 p.1 = false := h.not_same_of_lt (hs.1 p.1 (List.mem_map.mpr ⟨p, hp, rfl⟩))
+        simp only [this]
+        exact ih hs.2 hp
+  · intro hp
+    exact List.mem_of_find?_eq_some hp
+
+/-- ONE OPERATION of flat_map against std::map with the same comparator -/
+theorem mapStep_refines (h : StrictWeak lt) {m : FMap} {f : Int → Option (Int × Int)} (hm : MRep lt m f) (op : MOp) :
+    mapRetOk lt f op (m.step lt op).2 ∧ MRep lt (m.step lt op).1 (mapSpecNext lt f op) := by
+  cases op with
+  | index k =>
+    simp only [FMap.step, FMap.index, find_eq, ← hm.val, mapRetOk, mapSpecNext]
+    cases hf : f k with
+    | some w => simp; exact hm
+    | none => simp; exact hm.insertUb h 0 hf
+  | assign k v =>
+    simp only [FMap.step, FMap.assign, mapRetOk, mapSpecNext, true_and]
+    have e := getElem?_findIdx (lt := lt) k m.st
+    rw [← hm.val] at e
+    cases hf : f k with
+    | some p =>
+      rw [hf] at e
+      simp only [e]
+      obtain ⟨a, b⟩ := set_findIdx h k v m.st p e
+      exact ⟨by rw [a]; exact hm.sorted, fun j => by rw [b j, ← hm.val]⟩
+    | none =>
+      rw [hf] at e
+      simp only [e]
+      exact hm.insertUb h v hf
+  | insert k v =>
+    simp only [FMap.step, FMap.insert, findEntry_eq, ← hm.val, mapRetOk, mapSpecNext]
+    cases hf : f k with
+    | some w => simp; exact hm
+    | none => simp; exact hm.insertUb h v hf
+  | emplace k v =>
+    simp only [FMap.step, FMap.emplace, find_eq, ← hm.val, mapRetOk, mapSpecNext]
+    cases hf : f k with
+    | some w => simp; exact hm
+    | none => simp; exact hm.insertUb h v hf
+  | find k => simp only [FMap.step, find_eq, ← hm.val, mapRetOk, mapSpecNext, true_and]; exact hm
+  | count k =>
+    simp only [FMap.step, FMap.count, mapRetOk, mapSpecNext]
+    refine ⟨?_, hm⟩
+    rw [count_eq h k m.st (hm.uniq h), hm.val]
+  | «at» k =>
+    simp only [FMap.step, FMap.atKey, find_eq, ← hm.val, mapRetOk, mapSpecNext]
+    refine ⟨?_, hm⟩
+    cases f k <;> rfl
+  | size =>
+    simp only [FMap.step, FMap.size, mapRetOk, mapSpecNext]
+    refine ⟨⟨keysOf m.st, hm.uniq h, ?_, by simp [keysOf]⟩, hm⟩
+    intro k
+    rw [hm.val, lookupBy_isSome_iff]
+    constructor
+    · rintro ⟨p, hp, e⟩; exact ⟨p.1, List.mem_map.mpr ⟨p, hp, rfl⟩, e⟩
+    · rintro ⟨j, hj, e⟩
+      obtain ⟨p, hp, rfl⟩ := List.mem_map.mp hj
+      exact ⟨p, hp, e⟩
+  | clear => simp only [FMap.step, mapRetOk, mapSpecNext, true_and]; exact MRep.empty
+  | init l =>
+    simp only [FMap.step, mapRetOk, mapSpecNext, true_and]
+    exact (ofList_rep h l MRep.empty).ext (by funext k; simp)
+  | iter =>
+    simp only [FMap.step, mapRetOk, mapSpecNext]
+    exact ⟨⟨m.st, hm.sorted, fun p => by rw [hm.val]; exact entry_self h hm.sorted, rfl⟩, hm⟩
+  | cindex k =>
+    simp only [FMap.step, FMap.cindex, find_eq, ← hm.val, mapRetOk, mapSpecNext, true_and]; exact hm
+
+/-- a history of std::map answers: `rets` are what std::map answers to `ops` from the state `f` -/
+def MapHist (lt : Int → Int → Bool) : (Int → Option (Int × Int)) → List MOp → List MRet → Prop
+  | _, [], [] => True
+  | f, op :: ops, r :: rs => mapRetOk lt f op r ∧ MapHist lt (mapSpecNext lt f op) ops rs
+  | _, _, _ => False
+
+def mapSpecRun (lt : Int → Int → Bool) : (Int → Option (Int × Int)) → List MOp → (Int → Option (Int × Int))
+  | f, [] => f
+  | f, op :: ops => mapSpecRun lt (mapSpecNext lt f op) ops
+
+theorem mapRun_refines (h : StrictWeak lt) {m : FMap} {f : Int → Option (Int × Int)} (hm : MRep lt m f) (ops : List MOp) :
+    MapHist lt f ops (m.run lt ops).2 ∧ MRep lt (m.run lt ops).1 (mapSpecRun lt f ops) := by
+  induction ops generalizing m f with
+  | nil => exact ⟨trivial, hm⟩
+  | cons op ops ih =>
+    obtain ⟨a, b⟩ := mapStep_refines h hm op
+    obtain ⟨c, d⟩ := ih b
+    exact ⟨⟨a, c⟩, d⟩
 
 /-! ### flat_set -/
 
@@ -661,6 +689,65 @@ theorem sorted_enum_unique (h : StrictWeak lt) (a b : List Int) (ha : Sorted lt 
         rcases hj.mpr (Or.inr hm) with e | e
         · subst e; have := hb.1 j hm; rw [h.irrefl] at this; cases this
         · exact e
+
+/-- generic form of `sorted_enum_unique`: two lists that are strictly increasing for an irreflexive, asymmetric
+    relation and have the same members are equal -/
+theorem pairwise_enum_unique {α : Type} (r : α → α → Prop) (irr : ∀ x, ¬ r x x) (asym : ∀ x y, r x y → r y x → False)
+    (a b : List α) (ha : a.Pairwise r) (hb : b.Pairwise r) (hab : ∀ j, j ∈ a ↔ j ∈ b) : a = b := by
+  induction a generalizing b with
+  | nil =>
+    cases b with
+    | nil => rfl
+    | cons y ys => exact absurd ((hab y).mpr (by simp)) (by simp)
+  | cons x xs ih =>
+    cases b with
+    | nil => exact absurd ((hab x).mp (by simp)) (by simp)
+    | cons y ys =>
+      simp only [List.pairwise_cons] at ha hb
+      have hxy : x = y := by
+        have h1 := (hab x).mp (by simp)
+        have h2 := (hab y).mpr (by simp)
+        simp only [List.mem_cons] at h1 h2
+        rcases h1 with e | e
+        · exact e
+        · rcases h2 with e2 | e2
+          · exact e2.symm
+          · exact (asym _ _ (hb.1 x e) (ha.1 y e2)).elim
+      subst hxy
+      congr 1
+      refine ih ys ha.2 hb.2 ?_
+      intro j
+      have hj := hab j
+      simp only [List.mem_cons] at hj
+      constructor
+      · intro hm
+        rcases hj.mp (Or.inr hm) with e | e
+        · subst e; exact (irr _ (ha.1 j hm)).elim
+        · exact e
+      · intro hm
+        rcases hj.mpr (Or.inr hm) with e | e
+        · subst e; exact (irr _ (hb.1 j hm)).elim
+        · exact e
+
+/-- `flat_map::operator==` (equality of the storage vectors) on two maps in the invariant = equality of the
+    maps as std::map sees them (same entry for every key): the storage is a function of the abstract map -/
+theorem storage_eq_iff (h : StrictWeak lt) {m1 m2 : FMap} {f1 f2 : Int → Option (Int × Int)}
+    (h1 : MRep lt m1 f1) (h2 : MRep lt m2 f2) : m1.st = m2.st ↔ f1 = f2 := by
+  constructor
+  · intro e
+    funext k
+    rw [h1.val, h2.val, e]
+  · intro e
+    have s1 : m1.st.Pairwise (fun a b => lt a.1 b.1 = true) := by
+      have := h1.sorted; simp only [Sorted, keysOf, List.pairwise_map] at this; exact this
+    have s2 : m2.st.Pairwise (fun a b => lt a.1 b.1 = true) := by
+      have := h2.sorted; simp only [Sorted, keysOf, List.pairwise_map] at this; exact this
+    refine pairwise_enum_unique (fun a b : Int × Int => lt a.1 b.1 = true) ?_ ?_ _ _ s1 s2 ?_
+    · intro x hx; rw [h.irrefl] at hx; cases hx
+    · intro x y hxy hyx
+      have := h.trans _ _ _ hxy hyx; rw [h.irrefl] at this; cases this
+    · intro p
+      rw [entry_self h h1.sorted, entry_self h h2.sorted, ← h1.val, ← h2.val, e]
 
 end
 
